@@ -608,7 +608,11 @@ class AsyncDispatcher(BaseDispatcher, Generic[ContextType]):
                     response = self._batch_response(
                         *(
                             resp
-                            for resp in await asyncio.gather(*(self._request_handler(req, context) for req in request))
+                            for resp in (
+                                await asyncio.gather(*(self._request_handler(req, context) for req in request))
+                                if self._concurrent_batch else
+                                [await self._request_handler(req, context) for req in request]
+                            )
                             if resp
                         ),
                     )
